@@ -43,6 +43,10 @@ func main() {
 		}
 	case "verify":
 		cmdVerify(os.Args[2:])
+	case "manifest":
+		os.Exit(cmdManifest())
+	case "check":
+		os.Exit(cmdCheck(os.Args[2:]))
 	default:
 		fmt.Fprintln(os.Stderr, "unknown command")
 		os.Exit(2)
